@@ -389,6 +389,30 @@ def lifecycle(ctx, view, variants=("exact", "exact_checks"), bfs=True, nsim=None
         ctx.cov["samples"].append({"history": hists[len(hists) // 2]})
 
 
+def valgrind_pass(ctx, thin=1):
+    """Uninitialised reads are invisible to ASan/UBSan: a cross-section of the
+    cases runs in the plain exact harness under valgrind memcheck."""
+    import subprocess, zlib
+    pick = lambda c, m: zlib.crc32(json.dumps(c, sort_keys=True).encode()) % m == 0
+    n = 0
+    for fam, ops, m in (("Spl", {"SplUn", "SplBin", "SplLin", "SplEval"}, 150), ("Gen", {"Gen"}, 60), ("Interp", {"Interp"}, 10), ("Ops", {"OpApply", "OpBF"}, 300)):
+        cp, _ = family_gen(ctx, fam)
+        lines = [l for l in open(cp).read().splitlines() if (lambda c: c["op"] in ops and pick(c, m * thin))(json.loads(l))]
+        binp = build_family(fam, "exact", cp)
+        wd = vlib.ensure(os.path.join(ctx.work, "vg"))
+        inp, outp = os.path.join(wd, "c.ndjson"), os.path.join(wd, "t.ndjson")
+        open(inp, "w").write("\n".join(lines) + "\n")
+        if os.path.exists(outp):
+            os.remove(outp)
+        p = subprocess.run(["valgrind", "-q", "--error-exitcode=88", "--track-origins=yes", binp, inp, outp], stdout=subprocess.PIPE, stderr=subprocess.PIPE, timeout=3000)
+        n += len(lines)
+        if p.returncode != 0:
+            ctx.violations.append(({"op": "Valgrind", "family": fam, "cases": len(lines)}, {"rc": p.returncode, "report": p.stderr.decode(errors="replace")[-3000:]},
+                                   "valgrind memcheck reports an error in the exact harness run"))
+    ctx.cov["valgrind_cases"] = n
+    ctx.cov["evaluations"] += n
+
+
 def c09(ctx):
     """Replay of the TLC-generated cases of every family in the sanitizer build
     (ASan + UBSan + libstdc++ assertions): an observer report is an event no
@@ -408,6 +432,7 @@ def c09(ctx):
         return c["tag"] == "foreign" or len(c["fs"]) > 0 or pick(c, 16)
     stateless(ctx, "Ops", {"OpApply", "OpBF"}, variant="san", case_filter=opsel, build_subset=quick)
     lifecycle(ctx, "C09", variants=("san",), bfs=not quick, nsim=200 if quick else None)
+    valgrind_pass(ctx, 3 if quick else 1)
     ctx.assumptions.append("absence of undefined behaviour is observed by ASan/UBSan/_GLIBCXX_ASSERTIONS on the enumerated executions only; the observers, not TLC, detect the event (DESIGN.md 2.6)")
 
 
@@ -428,6 +453,8 @@ def c08(ctx):
     stateless(ctx, "Sup", {"SupBin"})
     stateless(ctx, "Ops", {"OpApply", "OpBF"}, case_filter=lambda c: c["tag"] == "foreign" or c.get("fshare") == 0)
     stateless(ctx, "Gen", {"Gen"}, case_filter=lambda c: c["route"] == 1)
+    # numerical integration across grids (double / long double)
+    stateless(ctx, "Fp", {"FpIntX"}, variant="fp", build_as="fp_plain")
     lifecycle(ctx, "C08", variants=("exact",), bfs=False)
 
 
